@@ -445,5 +445,6 @@ def check(tier):
             ck.add_mutant(name, m, "n", "harness.C02", "node_job", dict(cases=nodes))
         else:
             ck.add_mutant(name, m, "r", "harness.C02", "reject_job", dict(cases=rej))
+    ck.validate = ['expressions']
     ck.run()
     return ck.finish(replay=REPLAY)
